@@ -2,6 +2,8 @@ package sim
 
 import (
 	"fmt"
+	"net"
+	"syscall"
 	"time"
 
 	"github.com/plgd-dev/go-coap/v3/message/pool"
@@ -27,7 +29,7 @@ func init() {
 		},
 		Quick:    250000,
 		Thorough: 4000000,
-		Require:  []string{"stream.readEndsInsideNextFrame", "handshake.slow", "received.peerPing", "received.strayAck", "keepalive.pingSent", "tick.exactlyAtPeriod", "tick.foundInactive", "pong.superseded"},
+		Require:  []string{"ping.writeFails", "stream.readEndsInsideNextFrame", "handshake.slow", "received.peerPing", "received.strayAck", "keepalive.pingSent", "tick.exactlyAtPeriod", "tick.foundInactive", "pong.superseded"},
 		Assume: []string{
 			"keep-alive counts consecutive inactivity detections (a tick with now > last receive + period) since the last reset; the literal 'more than maxRetries pings unanswered' is never satisfied by any implementation that sends maxRetries pings",
 			"a pong for a superseded ping is accepted as either a reset or not (it is a received message; the statement does not say which wins)",
@@ -254,10 +256,29 @@ func c18Run(e *Env, keepalive bool) {
 					expectClose, mayClose = true, true
 				}
 			}
-			e.Logf("advance %v, tick(now-%v): inactive=%v detections=%d..%d expectClose=%v mayClose=%v", dt, stale, inactive, detMin, detMax, expectClose, mayClose)
+			// a transient send error (ENOBUFS, EPERM from a firewall rule being reloaded ...) hits the ping of this tick:
+			// a ping that could not be sent is an unanswered ping, nothing more
+			pingWriteFails := keepalive && expectPing && IsDatagram(tr) && t.Chance(1, 6)
+			if pingWriteFails {
+				e.Fault("ping.writeFails")
+				if w.U != nil {
+					w.U.N.WriteErr = func(src, dst *net.UDPAddr) error { return &net.OpError{Op: "write", Net: "udp", Err: syscall.ENOBUFS} }
+				} else {
+					w.PC.WriteErr = &net.OpError{Op: "write", Net: "udp", Err: syscall.ENOBUFS}
+				}
+			}
+			e.Logf("advance %v, tick(now-%v): inactive=%v detections=%d..%d expectClose=%v mayClose=%v ping-write-fails=%v", dt, stale, inactive, detMin, detMax, expectClose, mayClose, pingWriteFails)
 			newPings = 0
 			w.Tick(now.Add(-stale))
 			e.Wait()
+			if pingWriteFails {
+				if w.U != nil {
+					w.U.N.WriteErr = nil
+				} else {
+					w.PC.WriteErr = nil
+				}
+				expectPing = false // nothing reached the wire
+			}
 			w.Pump()
 			switch {
 			case closed() && !mayClose:
